@@ -17,7 +17,8 @@ func init() {
 			"(2) after a successful swap every exit of Commit/Rollback passes through the release helper of the transaction's mode; the helpers are CAS-guarded, unlock in their own mode, and are the only code that unlocks txLock; only BeginTransaction locks it; " +
 			"(3) wherever a transaction leaves the registry (delete from RegistryImpl.transactions, Registry.Remove call sites in the service) the same path has finished it first (Commit/Rollback, possibly deferred or in a spawned rollback); " +
 			"(4) the begin hand-off in RegistryImpl.Begin is an unbuffered rendezvous whose timeout arm rolls the late transaction back; " +
-			"(5) the sweeper marks a transaction stale when age > ttl or idle > idle-ttl (both comparisons present, right operands, right polarity).",
+			"(5) the sweeper marks a transaction stale when age > ttl or idle > idle-ttl (both comparisons present, right operands, right polarity). " +
+			"Added after blind round 4: the lock pairing rule of C07 (every acquisition released or deferred before every reachable return), which covers TransactionImpl.mu on the early-return paths of the transaction's methods.",
 		NotDecided: "timing (when the sweeper runs, the 10 s / 30 s constants), liveness for all call sequences, the begin goroutine's error returns that never reach the caller (reported as info).",
 		Rules:      []func(*Ctx, *Reporter){ruleTxFinishOnce, ruleTxRelease, ruleTxLockWriters, ruleTxOrphanRemoval, ruleTxBeginHandoff, ruleTxStale, ruleLockReleasedOnEveryExit},
 	})
